@@ -362,6 +362,14 @@ def run_blocked(desc, seed):
                         except Exception as e:
                             add(f"C18:blocked:eigh-{system}:exception:{type(e).__name__}", f"{where}: {e!r}")
                             continue
+                        # the same matrix in another memory layout (Fortran order, as LAPACK-backed routines return it)
+                        try:
+                            Uf, Sf, _ = sq.eigh_qn(np.asfortranarray(dm), ql, qr, tot, system)
+                            recf = (Uf * Sf ** 2) @ Uf.conj().T
+                            if not close(recf, dm, 1e-8, floor=1e-12):
+                                add(f"C18:blocked:eigh-{system}:memory-layout", f"{where}: for the Fortran-ordered copy of the same density matrix U S^2 U^+ differs from it by rel {rel_err(recf, dm):.2e}")
+                        except Exception as e:
+                            add(f"C18:blocked:eigh-{system}:memory-layout:exception:{type(e).__name__}", f"{where}: {e!r}")
                         side = ql if system == "L" else qr
                         if orth_dev(U) > 1e-9:
                             add(f"C18:blocked:eigh-{system}:not-orthonormal", f"{where}: dev {orth_dev(U):.2e}")
